@@ -133,7 +133,7 @@ def clamp_i63(d):
     return d
 
 
-FULL_PROFILE = dict(wo_fields=True, neg_stride=True, block_refs=True, docs=False, manifest_expressible=True)
+FULL_PROFILE = dict(wo_fields=True, neg_stride=True, block_refs=True, docs=False, manifest_expressible=True, generic_convs=True)
 
 
 def gen_random(rng):
